@@ -1,6 +1,7 @@
 package pebbles
 
 import (
+	"github.com/buildbuildio/pebbles/merger"
 	"encoding/json"
 	"sort"
 
@@ -30,6 +31,17 @@ scalar Date
 scalar JSON
 type Query { node(id: ID!): Node today: Date search(meta: JSON): String }
 type Mutation { adopt(id: ID!): Cat }
+`
+
+const vS16R1 = `
+interface Node { id: ID! }
+type Cat implements Node { id: ID! name: String! }
+type Query { node(id: ID!): Node }
+`
+const vS16R2 = `
+interface Node { id: ID! }
+type Cat implements Node { id: ID! toy: String }
+type Query { node(id: ID!): Node }
 `
 
 const vTypeSel = `kind name description
@@ -297,10 +309,40 @@ func VerifIntrospectionHistory() {
 // VerifIntrospectionRoundTrip: another gateway can rebuild an equivalent schema from the standard query
 func VerifIntrospectionRoundTrip() {
 	vK = 1
-	f := vNewFed(&vWorld{ents: map[string]vEnt{}, roots: map[string]interface{}{}}, nil, vS16A, vS16B)
+	// with the default merger, or with the one that hides the Relay entry point
+	var opts []GatewayOption
+	hidden := verifChoice("merger", 2) == 1
+	if hidden {
+		var m merger.SanitizeNodeMergerFunc
+		opts = append(opts, WithMerger(m))
+	}
+	sdls := []string{vS16A, vS16B}
+	if verifChoice("relayonly", 2) == 1 {
+		// services that are reached through the Relay entry point only: Query has no field of its own
+		sdls = []string{vS16R1, vS16R2}
+		verifReach("services with nothing but node")
+	}
+	if hidden && len(sdls) == 2 && sdls[0] == vS16R1 {
+		// nothing would be left of Query: the schema would not be a GraphQL schema (and no client could
+		// rebuild it), so the gateway must not start
+		var m merger.SanitizeNodeMergerFunc
+		_, merr := m.Merge([]*merger.MergeInput{{Schema: vMustSchema(vS16R1), URL: "a"}, {Schema: vMustSchema(vS16R2), URL: "b"}})
+		verifAssert(merr != nil, "hiding the only field of Query is refused at start-up")
+		verifReach("empty query type refused")
+		return
+	}
+	f := vNewFed(vAbstractWorld(), opts, sdls...)
+	// the introspection entry points answer (the standard query below relies on them)
+	for _, iq := range []string{`{ __typename }`, `{ __schema { queryType { name } } }`, `query($n: String!) { __type(name: $n) { name kind } }`} {
+		_, ia := f.vPost(iq, map[string]interface{}{"n": "Cat"}, "")
+		verifAssert(ia["errors"] == nil && ia["data"] != nil, "introspection operations are answered whatever the root type holds: "+iq)
+	}
 	q := &v16Queryer{gw: f.gw}
 	intro := &introspection.ParallelRemoteSchemaIntrospector{Factory: func(string) queryer.Queryer { return q }}
 	res, err := intro.IntrospectRemoteSchemas("gw")
+	if err != nil {
+		verifLog("introspection of the gateway failed: " + err.Error())
+	}
 	verifAssert(err == nil && len(res) == 1, "a second gateway can introspect this one")
 	if err != nil || len(res) != 1 {
 		return
@@ -346,5 +388,19 @@ func VerifIntrospectionRoundTrip() {
 		verifAssert(len(g.Interfaces) == len(d.Interfaces), "the rebuilt schema has the implements clauses: "+name)
 		verifAssert(len(g.Types) == len(d.Types), "the rebuilt schema has the union members: "+name)
 	}
+	// reported if and only if accepted: root fields, probed with one operation each
+	probes := [][2]string{
+		{"node", `{ node(id: "c1") { ... on Cat { name } } }`},
+		{"today", `{ today }`},
+		{"pets", `{ pets { name } }`},
+		{"ghost", `{ ghost }`},
+	}
+	for _, pr := range probes {
+		reported := got.Types["Query"] != nil && got.Types["Query"].Fields.ForName(pr[0]) != nil
+		_, ans := f.vPost(pr[1], nil, "")
+		accepted := ans["errors"] == nil
+		verifAssert(reported == accepted, "a root field is reported by introspection if and only if validation accepts it: "+pr[0])
+	}
+	verifAssert((got.Types["Query"].Fields.ForName("node") == nil) == hidden, "the node-hiding merger hides Query.node, the default merger shows it")
 	verifReach("round trip")
 }
